@@ -25,10 +25,11 @@ enum { EV_MISS = 1, EV_USE = 2, EV_ENTER_MOD = 10, EV_EXIT_MOD = 11, EV_ENTER_SI
 #define NBIG 256
 #define NHUGE 4096
 #define NREC 16384
+#define NMAX 65536
 #define NSMALL 4
 #define NNTT 64
 
-static MODULE *modBig, *modSmall, *modNtt, *modHuge, *modRec;
+static MODULE *modBig, *modSmall, *modNtt, *modHuge, *modRec, *modMax;
 static REIM_FFT_PRECOMP* pReimFft;
 static REIM_IFFT_PRECOMP* pReimIfft;
 static CPLX_FFT_PRECOMP* pCplxFft;
@@ -161,15 +162,20 @@ static uint64_t run_op(int op) {
       free(a); free(r);
       break;
     }
-    case 28: {  // large dimension, everything in place (coefficient and big-coefficient forms)
-      const uint64_t n = NHUGE;
-      int64_t* r = al(8 * 2 * n);
-      fill_small(r, 2 * n, &s, 60);
-      vec_znx_rotate(modHuge, 1234567, r, 2, n, r, 2, n); h = fnv(h, r, 8 * 2 * n);
-      vec_znx_automorphism(modHuge, 4099, r, 2, n, r, 2, n); h = fnv(h, r, 8 * 2 * n);
-      vec_znx_big_rotate(modHuge, -77, (VEC_ZNX_BIG*)r, 2, (VEC_ZNX_BIG*)r, 2); h = fnv(h, r, 8 * 2 * n);
-      vec_znx_big_automorphism(modHuge, -5, (VEC_ZNX_BIG*)r, 2, (VEC_ZNX_BIG*)r, 2); h = fnv(h, r, 8 * 2 * n);
-      free(r);
+    case 28: {  // large dimensions (three of them), everything in place (coefficient and big-coefficient forms)
+      const MODULE* mods3[3] = {modHuge, modRec, modMax};
+      const uint64_t ns3[3] = {NHUGE, NREC, NMAX};
+      for (int q = 0; q < 3; ++q) {
+        const uint64_t n = ns3[q];
+        const MODULE* md = mods3[q];
+        int64_t* r = al(8 * 2 * n);
+        fill_small(r, 2 * n, &s, 60);
+        vec_znx_rotate(md, 1234567, r, 2, n, r, 2, n); h = fnv(h, r, 8 * 2 * n);
+        vec_znx_automorphism(md, 4099, r, 2, n, r, 2, n); h = fnv(h, r, 8 * 2 * n);
+        vec_znx_big_rotate(md, -77, (VEC_ZNX_BIG*)r, 2, (VEC_ZNX_BIG*)r, 2); h = fnv(h, r, 8 * 2 * n);
+        vec_znx_big_automorphism(md, -5, (VEC_ZNX_BIG*)r, 2, (VEC_ZNX_BIG*)r, 2); h = fnv(h, r, 8 * 2 * n);
+        free(r);
+      }
       break;
     }
     case 7: {  // NTT120 module
@@ -509,6 +515,7 @@ int main(int argc, char** argv) {
   modSmall = new_module_info(NSMALL, FFT64);
   modHuge = new_module_info(NHUGE, FFT64);
   modRec = new_module_info(NREC, FFT64);
+  modMax = new_module_info(NMAX, FFT64);
   modNtt = new_module_info(NNTT, NTT120);
   pReimFft = new_reim_fft_precomp(32, 0);
   pReimIfft = new_reim_ifft_precomp(32, 0);
